@@ -39,7 +39,7 @@ TRUSTED = [
     "C04 two threads (harness/props/c04_preempt.py): sys.settrace baton scheduler; scheduling points = every line of process_iter (+ inner add/remove), of the cache_clear lambda and of Process.is_running, every bytecode of those that loads/stores _pmap or _pids_reused and the bytecode after it, entry and _get_ident line of Process._init, item boundaries of the consumer loop; all schedules with <= 2 pre-emptions (thorough; with kernel events on a 1/6 sub-lattice) and item-boundary schedules with 3 pre-emptions; every-bytecode granularity is sampled only; more than two pre-emptions / more than two threads are not explored (the statement-granularity theorems C04_fine_* cover them thread-locally); the values a real generator frame reads (its locals pmap / a / pid / ls at line events, NoSuchProcess exception events, yields at return events, pmap at the `_pmap = pmap` line) are read off the frame by the tracer and fed to the Lean thread model",
 ]
 MANIFEST = {
-    "level_text": "Machine-checked Lean 4 proofs over a model of pids()/pid_exists()/process_iter()/cache_clear()/is_running()'s cache side effect. For every table: pids() is the strictly ascending list of exactly the listed PIDs (C04_pids_sorted_exact, C04_pids_unique; byte level: C04_listing_exact); pid_exists(n) is a bool, True exactly for listed PIDs, for every int n and every well-formed table with threads, foreign processes and broken status files (C04_pidExists_iff). For EVERY history, overlapping generators and both prologue orders included: each generator yields strictly ascending PIDs without duplicates, all from the listing it took, and next() can only yield/stop/raise ValueError (invalid attrs)/IndexError (empty table) (C04_iter_ascending, C04_overlap_safety, C04_yield_was_listed); each next() visits the remaining listed PIDs in order and skips a PID only if it vanished (C04_iter_each_listed_once_repaired: full strength only for a configuration with the REPAIRED prologue order — not the shipped code; C04_iter_each_listed_once_partial for the code as it is when no PID is flagged at the start of the iteration; C04_iter_each_listed_Full_fails_shipped / C04_iteration_complete_Full_fails_shipped: the full clause is REFUTED for the shipped order on the L19 state); info keys are exactly the requested names (C04_info_keys). One WHOLE iteration as one sentence, for any continuation of the history (other generators advancing, table changes inside and between calls, cache_clear, is_running): the PIDs a generator yields are a subsequence of the ascending listing it took and every PID of that listing is yielded, or was absent from the table at one of its next() calls, or is still to be visited; once the generator is exhausted, yielded or vanished (C04_iteration_complete_repaired for the repaired prologue order only, C04_iteration_complete_partial for the code as it is when no PID is flagged at the start, C04_iteration_drained). 'Recycled -> replaced by a fresh object' for the SHIPPED order in its two-iteration form, from any reachable state, kernel events anywhere, any attrs (C04_flagged_iteration_skips: the iteration that starts while a cached PID is flagged never yields it and publishes a _pmap without it — the known finding C04-flagged-pid-skipped characterised in general; C04_uncached_iteration_fresh: an iteration that finds a listed PID uncached yields for it only a reference no object had before, an object of that PID; C04_recycled_replaced_two_iterations: both composed; C04_refines_sequential_from: from any idle reachable state — e.g. the one after the dropping iteration — the code equals the specification machine, so the fresh object is kept). Object <-> PID: in every reachable state, any configuration, the yielded reference is a live object whose pid is the yielded PID and no reference in _pmap / a suspended generator's map / to-do list dangles or is filed under another PID (C04_yield_object_pid, C04_object_pid_stable; invariant ObjInv). For every SEQUENTIAL history the whole output trace of the model — PIDs, object identities, info keys — equals that of a shared-cache specification machine (C04_refines_sequential, by an abstraction function), whose cache keeps an entry iff its PID is still listed and not flagged, yields the cached object else a fresh one, and is emptied by cache_clear (C04_start_cache, C04_spec_visit, C04_isRunning_flags, C04_cache_clear). The platform functions are covered branch by branch: _psposix.pid_exists (PID 0, ESRCH, EPERM, ok, OverflowError: C04_posix_pidExists_branches), _pslinux.pid_exists called on its own with ANY table changes between the kill probe and the status read (C04_linux_pidExists_two_instants: the answer is right for the table at the probe or at the read; C04_linux_pidExists_iff without changes; C04_platform_eq ties them to the front-end model); bool arguments are ints (C04_pidExists_bool), floats are pinned as outside the statement (C04_pidExists_float: TypeError for positive floats). as_dict's ad_value substitution: keys exactly the requested names, ad_value exactly where the getter raises AccessDenied/ZombieProcess (C04_asdict_ad_value). Two threads in the prologue's drain loop: C04_drain_race_counterexample (KeyError with the unguarded pop of the code as found) and C04_drain_guarded_safe (no KeyError, no flag lost, every schedule, for the guarded pop); the code now has the guarded pop (fix 4d302c5), pinned by the obligation cfg_pop_guarded. One thread at STATEMENT granularity against an arbitrary environment (Model/C04Fine.lean: the thread as a function of what it reads — _pmap at the copy, the table at the listing, the PIDs _pids_reused.pop() hands it, the answer at each Process(pid) / as_dict — so for every schedule of any number of threads and table changes at any point, also between add(pid) and as_dict): its prologue computes what the atomic prologue computes on the hybrid snapshot (C04_fine_prologue_atomic); yielded PIDs strictly ascending and from its listing, each yielded object is the one _pmap held for that PID at the copy (and not handed to it as recycled) or its own new one, only IndexError/KeyError(unguarded pop)/ValueError can escape (C04_fine_safety, C04_fine_no_keyerror for the code as it is); what it stores into _pmap maps PIDs of its listing to the copied or its own object for that very PID (C04_fine_publish: the guarantee every reader relies on); run to the end it yields every listed PID unless the world answered NoSuchProcess there (C04_fine_complete, for the repaired order or when it was handed no flagged PID). Proved counterexamples (replayed on the real code): L4 OverflowError for the pre-fix pid_exists, L19 flagged PID skipped, overlapping generators, cache_clear while suspended, ppid reuse check (these last four are the known findings C04-flagged-pid-skipped, C04-overlap-identity, C04-clear-while-suspended, C04-reuse-check-skips-pid), and the _pids_reused.pop() race of two threads for the unguarded pop (fixed in /repo by 4d302c5). Tied to the code by translator facts feeding proof obligations — cfg_good (range guard), cfg_reuse_attrs (the only as_dict name whose getter reaches _raise_if_pid_reused() is ppid: a getter gaining the call breaks the build, and the harness keeps the region of known finding C04-reuse-check-skips-pid pinned to ppid so the new behaviour is a failing input), cfg_no_access_attrs (exactly pid and create_time are answered from the object; C04_refines_sequential_literal states the refinement against the literal list), cfg_names_valid, cfg_pop_guarded; C04_noReuse_iff spells out the NoReuse hypothesis for the code as it is (attrs=None or a non-empty list without ppid) — and the prologue order, which selects the model the driver runs, and by a differential run of the real functions over a fake procfs incl. exhaustive short histories, the complete pid_exists table (front-end, both platform functions, windows between probe and read, bool/float arguments), attrs=[] (all names) on a complete fake /proc/<pid> with EACCES injection, and a deterministic bounded-pre-emption exploration of two threads using process_iter()/cache_clear()/is_running() at once (oracle from the statement; item-boundary schedules are also run through the Lean model, drain-loop steps through the Lean drain model, and EVERY generator run of every explored schedule — line, shared-bytecode and every-bytecode granularity — through the statement-granularity thread model fed with the values the real thread read: to-do list, yields and the published map must be equal); the whole-iteration sentence is also judged on the implementation's own outputs of every history; process_iter is called in every spelling of its signature (no argument, attrs / ad_value positional, by keyword, defaults).",
+    "level_text": "Machine-checked Lean 4 proofs over a model of pids()/pid_exists()/process_iter()/cache_clear()/is_running()'s cache side effect. For every table: pids() is the strictly ascending list of exactly the listed PIDs (C04_pids_sorted_exact, C04_pids_unique; byte level: C04_listing_exact); pid_exists(n) is a bool, True exactly for listed PIDs, for every int n and every well-formed table with threads, foreign processes and broken status files (C04_pidExists_iff). For EVERY history, overlapping generators and both prologue orders included: each generator yields strictly ascending PIDs without duplicates, all from the listing it took, and next() can only yield/stop/raise ValueError (invalid attrs)/IndexError (empty table) (C04_iter_ascending, C04_overlap_safety, C04_yield_was_listed); each next() visits the remaining listed PIDs in order and skips a PID only if it vanished (C04_iter_each_listed_once_repaired: full strength only for a configuration with the REPAIRED prologue order — not the shipped code; C04_iter_each_listed_once_partial for the code as it is when no PID is flagged at the start of the iteration; C04_iter_each_listed_Full_fails_shipped / C04_iteration_complete_Full_fails_shipped: the full clause is REFUTED for the shipped order on the L19 state); info keys are exactly the requested names (C04_info_keys). One WHOLE iteration as one sentence, for any continuation of the history (other generators advancing, table changes inside and between calls, cache_clear, is_running): the PIDs a generator yields are a subsequence of the ascending listing it took and every PID of that listing is yielded, or was absent from the table at one of its next() calls, or is still to be visited; once the generator is exhausted, yielded or vanished (C04_iteration_complete_repaired for the repaired prologue order only, C04_iteration_complete_partial for the code as it is when no PID is flagged at the start, C04_iteration_drained). 'Recycled -> replaced by a fresh object' for the SHIPPED order in its two-iteration form, from any reachable state, kernel events anywhere, any attrs (C04_flagged_iteration_skips: the iteration that starts while a cached PID is flagged never yields it and publishes a _pmap without it — the known finding C04-flagged-pid-skipped characterised in general; C04_uncached_iteration_fresh: an iteration that finds a listed PID uncached yields for it only a reference no object had before, an object of that PID; C04_recycled_replaced_two_iterations: both composed; C04_refines_sequential_from: from any idle reachable state — e.g. the one after the dropping iteration — the code equals the specification machine, so the fresh object is kept). The LIFETIME of a recycled-flag (seeded round 5): every operation other than the first next() of a generator — cache_clear(), next()/close() of generators in flight that republish their private table, is_running(), pids(), pid_exists() — keeps every flagged PID flagged (C04_flag_kept_by_every_other_op, C04_cache_clear_keeps_flags); once is_running() has found an object's PID recycled the PID stays flagged along ANY continuation in which no iteration starts (C04_found_recycled_stays_flagged), the iteration that starts next never yields that stale object, either prologue order, any attrs (C04_found_recycled_never_yielded_again), and for the shipped order iteration n drops the entry and n+1 yields a fresh object (C04_found_recycled_replaced); C04_clear_dropping_flags_counterexample shows what a cache_clear() that also emptied _pids_reused would do (stale object yielded forever); the frame is tied to the source by the obligations cfg_flag_set_ops / cfg_pmap_ops on the facts listing EVERY use of the module globals _pids_reused / _pmap in the package. Object <-> PID: in every reachable state, any configuration, the yielded reference is a live object whose pid is the yielded PID and no reference in _pmap / a suspended generator's map / to-do list dangles or is filed under another PID (C04_yield_object_pid, C04_object_pid_stable; invariant ObjInv). For every SEQUENTIAL history the whole output trace of the model — PIDs, object identities, info keys — equals that of a shared-cache specification machine (C04_refines_sequential, by an abstraction function), whose cache keeps an entry iff its PID is still listed and not flagged, yields the cached object else a fresh one, and is emptied by cache_clear (C04_start_cache, C04_spec_visit, C04_isRunning_flags, C04_cache_clear). The platform functions are covered branch by branch: _psposix.pid_exists (PID 0, ESRCH, EPERM, ok, OverflowError: C04_posix_pidExists_branches), _pslinux.pid_exists called on its own with ANY table changes between the kill probe and the status read (C04_linux_pidExists_two_instants: the answer is right for the table at the probe or at the read; C04_linux_pidExists_iff without changes; C04_platform_eq ties them to the front-end model); bool arguments are ints (C04_pidExists_bool), floats are pinned as outside the statement (C04_pidExists_float: TypeError for positive floats). as_dict's ad_value substitution: keys exactly the requested names, ad_value exactly where the getter raises AccessDenied/ZombieProcess (C04_asdict_ad_value). Two threads in the prologue's drain loop: C04_drain_race_counterexample (KeyError with the unguarded pop of the code as found) and C04_drain_guarded_safe (no KeyError, no flag lost, every schedule, for the guarded pop); the code now has the guarded pop (fix 4d302c5), pinned by the obligation cfg_pop_guarded. One thread at STATEMENT granularity against an arbitrary environment (Model/C04Fine.lean: the thread as a function of what it reads — _pmap at the copy, the table at the listing, the PIDs _pids_reused.pop() hands it, the answer at each Process(pid) / as_dict — so for every schedule of any number of threads and table changes at any point, also between add(pid) and as_dict): its prologue computes what the atomic prologue computes on the hybrid snapshot (C04_fine_prologue_atomic); yielded PIDs strictly ascending and from its listing, each yielded object is the one _pmap held for that PID at the copy (and not handed to it as recycled) or its own new one, only IndexError/KeyError(unguarded pop)/ValueError can escape (C04_fine_safety, C04_fine_no_keyerror for the code as it is); what it stores into _pmap maps PIDs of its listing to the copied or its own object for that very PID (C04_fine_publish: the guarantee every reader relies on); run to the end it yields every listed PID unless the world answered NoSuchProcess there (C04_fine_complete, for the repaired order or when it was handed no flagged PID). Proved counterexamples (replayed on the real code): L4 OverflowError for the pre-fix pid_exists, L19 flagged PID skipped, overlapping generators, cache_clear while suspended, ppid reuse check (these last four are the known findings C04-flagged-pid-skipped, C04-overlap-identity, C04-clear-while-suspended, C04-reuse-check-skips-pid), and the _pids_reused.pop() race of two threads for the unguarded pop (fixed in /repo by 4d302c5). Tied to the code by translator facts feeding proof obligations — cfg_good (range guard), cfg_reuse_attrs (the only as_dict name whose getter reaches _raise_if_pid_reused() is ppid: a getter gaining the call breaks the build, and the harness keeps the region of known finding C04-reuse-check-skips-pid pinned to ppid so the new behaviour is a failing input), cfg_no_access_attrs (exactly pid and create_time are answered from the object; C04_refines_sequential_literal states the refinement against the literal list), cfg_names_valid, cfg_pop_guarded; C04_noReuse_iff spells out the NoReuse hypothesis for the code as it is (attrs=None or a non-empty list without ppid) — and the prologue order, which selects the model the driver runs, and by a differential run of the real functions over a fake procfs incl. exhaustive short histories, the complete pid_exists table (front-end, both platform functions, windows between probe and read, bool/float arguments), attrs=[] (all names) on a complete fake /proc/<pid> with EACCES injection, and a deterministic bounded-pre-emption exploration of two threads using process_iter()/cache_clear()/is_running() at once (oracle from the statement; item-boundary schedules are also run through the Lean model, drain-loop steps through the Lean drain model, and EVERY generator run of every explored schedule — line, shared-bytecode and every-bytecode granularity — through the statement-granularity thread model fed with the values the real thread read: to-do list, yields and the published map must be equal); the whole-iteration sentence and the sentence 'an object whose PID is_running() found recycled is never yielded by an iteration that starts later' are also judged on the implementation's own outputs of every history (model-independent oracles; families inflight_flag / exhaustive_inflight span recycling x generator in flight x cache_clear()); process_iter is called in every spelling of its signature (no argument, attrs / ad_value positional, by keyword, defaults).",
     "level_note": "Partial: two threads: theorems cover the generator-level interleavings (Op.next of several generators), the drain loop, and — thread-locally, for every schedule — one thread at statement granularity against an arbitrary environment (safety, identity of the yielded objects w.r.t. the copy, the published map, completeness); the GLOBAL identity statement under two threads is not proved (it is false: known finding C04-overlap-identity) and the composition of several fine-grained threads into one trace is explored (<= 2 pre-emptions at line/shared-bytecode granularity), not proved. Identity is proved for sequential histories only (overlaps, cache_clear while suspended, ppid+recycled PID, flagged PID at iteration start are the four known findings, with proved counterexamples; the _pids_reused.pop() race found in the same round is fixed by 4d302c5); completeness at full strength is proved for the repaired prologue order only and refuted for the shipped one, for which the partial theorems (nothing flagged at the start) and the two-iteration theorem hold; `zombie` is carried by the kernel model but read only by asDictVals (per-getter outcomes fed by the harness), not by the history machine; every OSError of the status read is one outcome of the model (the harness injects ENOENT, EACCES and ESRCH). Trusted: Lean kernel + {propext, Classical.choice, Quot.sound}; the translator; the correspondence harness; atomicity (table changes between psutil's OS accesses and right after the listing); CPython generator finalisation and set iteration order; as_dict modelled by attribute kind.",
     "technique": "Lean 4 generator state machine + refinement to a shared-cache specification by an abstraction function, invariants by induction over histories, a statement-granularity thread model quantified over everything the thread reads (rely/guarantee), translator-fed proof obligation, differential correspondence over a fake procfs with exhaustive short histories, bounded-pre-emption schedule exploration of real threads (sys.settrace baton scheduler) tied to the Lean model at item granularity",
     "design_ref": "DESIGN.md §5 C04",
@@ -238,6 +238,75 @@ def _pop_guarded(tree):
     raise NotRecognised("process_iter: `while _pids_reused:` not found at top level")
 
 
+def _shared_state_ops(snap, tree, name):
+    """EVERY use of the module global `name` (`_pmap` / `_pids_reused`) in psutil/__init__.py as sorted "scope:op" strings —
+    scope = the top-level function / `Class.method` / `<module>` / the dotted target a lambda is bound to
+    (`process_iter.cache_clear`); op = the method called on it (`add`, `pop`, `clear`, `copy`…), `truth` (tested by
+    while/if), `init` (module-level assignment), `global` (declared global), `store` (re-bound), `ref` (anything else: an
+    alias, an argument, an iteration — total on purpose: a new shape gives a new VALUE and breaks the obligation
+    `cfg_shared_state_ops`). Any other module of the package naming it is reported as `<file>:ref`."""
+    out = set()
+
+    def scan(scope, node, toplevel):
+        for n in ast.walk(node):
+            if isinstance(n, ast.Global) and name in n.names:
+                out.add("%s:global" % scope)
+        consumed = set()
+        for n in ast.walk(node):
+            if isinstance(n, ast.Call) and isinstance(n.func, ast.Attribute) and isinstance(n.func.value, ast.Name) \
+                    and n.func.value.id == name:
+                out.add("%s:%s" % (scope, n.func.attr))
+                consumed.add(id(n.func.value))
+            elif isinstance(n, (ast.While, ast.If)) and isinstance(n.test, ast.Name) and n.test.id == name:
+                out.add("%s:truth" % scope)
+                consumed.add(id(n.test))
+        for n in ast.walk(node):
+            if isinstance(n, ast.Name) and n.id == name and id(n) not in consumed:
+                if isinstance(n.ctx, ast.Store):
+                    out.add("%s:%s" % (scope, "init" if toplevel else "store"))
+                else:
+                    out.add("%s:ref" % scope)
+
+    # `process_iter.cache_clear = _some_function`: the function is reported under the name it is published as
+    alias = {}
+    for st in tree.body:
+        if isinstance(st, ast.Assign) and isinstance(st.value, ast.Name) and isinstance(st.targets[0], ast.Attribute):
+            alias[st.value.id] = extract.dotted(st.targets[0])
+
+    def block(stmts, prefix):
+        for st in stmts:
+            if isinstance(st, (ast.FunctionDef, ast.AsyncFunctionDef)):
+                scan(alias.get(st.name, prefix + st.name), st, False)
+            elif isinstance(st, ast.ClassDef):
+                for sub in st.body:
+                    if isinstance(sub, (ast.FunctionDef, ast.AsyncFunctionDef)):
+                        scan("%s.%s" % (st.name, sub.name), sub, False)
+                    elif isinstance(sub, (ast.If, ast.Try, ast.With)):
+                        for fn in [x for x in ast.walk(sub) if isinstance(x, (ast.FunctionDef, ast.AsyncFunctionDef))]:
+                            scan("%s.%s" % (st.name, fn.name), fn, False)
+                    else:
+                        scan("%s.<body>" % st.name, sub, False)
+            elif isinstance(st, ast.Assign) and isinstance(st.value, ast.Lambda):
+                scan(extract.dotted(st.targets[0]) or "<module>", st.value, False)
+            elif isinstance(st, (ast.If, ast.Try, ast.With)):
+                inner = list(st.body) + list(getattr(st, "orelse", [])) + list(getattr(st, "finalbody", []))
+                for h in getattr(st, "handlers", []):
+                    inner += h.body
+                block(inner, prefix)
+            else:
+                scan("<module>", st, True)
+    block(tree.body, "")
+    pkg = os.path.join(snap.dir, "psutil")
+    for fn in sorted(os.listdir(pkg)):
+        if fn.endswith(".py") and fn != "__init__.py":
+            with open(os.path.join(pkg, fn), encoding="utf-8") as f:
+                if name in f.read():
+                    out.add("%s:ref" % fn)
+    if not out:
+        raise NotRecognised("module global %s not found in psutil/__init__.py" % name)
+    return sorted(out)
+
+
 def facts(snap, F):
     init = extract.parse_module(snap, "__init__.py")
     posix = extract.parse_module(snap, "_psposix.py")
@@ -263,6 +332,12 @@ def facts(snap, F):
               "process_iter's drain loop catches the KeyError of _pids_reused.pop() on a set emptied by another thread")
     F.try_add("goneRefused", "Bool", lambda: extract.lean_bool(_gone_refused(init)),
               "_raise_if_pid_reused() raises NoSuchProcess once is_running() has seen the process gone (self._gone)")
+    F.try_add("flagSetOps", "List String",
+              lambda: extract.lean_list(_shared_state_ops(snap, init, "_pids_reused"), extract.lean_str),
+              "every use of the module global _pids_reused in the package, as scope:operation")
+    F.try_add("pmapOps", "List String",
+              lambda: extract.lean_list(_shared_state_ops(snap, init, "_pmap"), extract.lean_str),
+              "every use of the module global _pmap in the package, as scope:operation")
 
 
 # ------------------------------------------------------------------------------ simulated kernel (mirrors Kernel.apply)
@@ -884,6 +959,93 @@ def whole_iteration_oracle(rows, reuse_attrs, valid):
     return bad
 
 
+def recycled_replaced_oracle(rows, reuse_attrs, known, stats=None):
+    """The clause "an entry whose PID was found recycled by is_running() is replaced by a fresh object" (Lean:
+    C04_found_recycled_never_yielded_again), judged on the implementation's own outputs and a shadow process table — no
+    model involved. An object is BUILT FOR the incarnation (start time) its PID has in the table when it is first yielded;
+    `is_running()` FINDS it recycled when it answers False for the first time on that object while the table holds the
+    PID as another incarnation. From then on no iteration that STARTS later (first next() after that call) may yield
+    that object — whatever happened in between: cache_clear(), generators that were in flight finishing or being closed
+    (they republish their private table), further is_running() calls, table changes. Tolerated only inside the region of
+    known finding C04-overlap-identity (an iteration advanced while another one was suspended: the stale entry is
+    republished AFTER a later iteration consumed the flag).
+    → list of (step, note, finding_or_None)"""
+    k = SimKernel()
+    birth = {}          # canonical object -> (pid, start it was built for)
+    said_false = set()
+    found = {}          # canonical object -> step of the is_running() call that found its PID recycled
+    first_next = {}
+    yielded_at = {}
+    ngen = 0
+    out = []
+    hist = [r[0] for r in rows]
+    impls = [r[1] for r in rows]
+    for i, (o, io, mo, so) in enumerate(rows):
+        op = o["op"]
+        if op == "kev":
+            k.apply(o["ev"])
+        elif op == "linux_pid_exists":
+            for ev in o["mid"]:
+                k.apply(ev)
+        elif op == "iter":
+            ngen += 1
+        elif op == "next":
+            for ev in o["mid"]:
+                k.apply(ev)
+            g = o["g"]
+            if g >= ngen:
+                continue
+            first_next.setdefault(g, i)
+            if io.get("kind") == "yield":
+                x = io["obj"]
+                yielded_at[i] = x
+                if x not in birth:
+                    p = k.find_proc(io["pid"])
+                    birth[x] = (io["pid"], p["start"] if p else None)
+                if stats is not None and first_next[g] > min(found.values(), default=i + 1):
+                    stats["yields_of_later_iterations"] = stats.get("yields_of_later_iterations", 0) + 1
+                if x in found and first_next[g] > found[x]:
+                    reg = regions(hist[:i + 1], impls[:i + 1], reuse_attrs, getattr(rows, "flags", ()))
+                    fid = F_OVERLAP if (F_OVERLAP in reg and F_OVERLAP in known) else None
+                    out.append((i, "step %d: generator %d (first next() at step %d) yields for PID %d the very object whose "
+                                   "is_running() found that PID recycled at step %d" % (i, g, first_next[g], io["pid"], found[x]),
+                                fid))
+                    if fid is None:
+                        return out
+        elif op == "is_running":
+            x = yielded_at.get(o["at"])
+            if x is not None and io.get("kind") == "bool" and io["v"] is False and x not in said_false:
+                said_false.add(x)
+                pid, b = birth[x]
+                p = k.find_proc(pid)
+                if p is not None and b is not None and p["start"] != b:
+                    found[x] = i
+                    if stats is not None:
+                        stats["found"] = stats.get("found", 0) + 1
+                        susp = suspended_after(hist[:i + 1], impls[:i + 1])
+                        if susp:
+                            stats["found_while_in_flight"] = stats.get("found_while_in_flight", 0) + 1
+        elif op == "cache_clear" and stats is not None and found:
+            stats["clear_after_found"] = stats.get("clear_after_found", 0) + 1
+            if suspended_after(hist[:i + 1], impls[:i + 1]):
+                stats["clear_after_found_while_in_flight"] = stats.get("clear_after_found_while_in_flight", 0) + 1
+    return out
+
+
+def suspended_after(hist, impl_outs):
+    """generators suspended at a yield after the given prefix (from the implementation's own outcomes)"""
+    susp = set()
+    for op, out in zip(hist, impl_outs):
+        if op["op"] == "next":
+            if out.get("kind") == "yield":
+                susp.add(op["g"])
+            else:
+                susp.discard(op["g"])
+        elif op["op"] == "close":
+            susp.discard(op["g"])
+    return susp
+
+
 # ------------------------------------------------------------------------------ generators
 
 
@@ -1145,6 +1307,80 @@ def gen_history(rng, family):
         for g in gs:
             b.drain(g, extra=0)
         b.full()
+    elif family == "inflight_flag":
+        # seeded round 5 — the PRODUCT of three dimensions the other families span one at a time: a PID is recycled and
+        # is_running() finds out x a generator is in flight (partially consumed: it holds its private copy of the table
+        # and republishes it when it ends / is closed) x cache_clear(); afterwards three complete iterations
+        b.populate(rng.randrange(2, 5))
+        pid_step = {}
+        if rng.random() < 0.85:
+            pids0 = sorted(p["pid"] for p in b.k.procs)
+            g0 = b.iter()
+            first = len(b.h)
+            b.drain(g0)
+            for j, pid in enumerate(pids0):
+                pid_step[pid] = first + j
+        victims = []
+
+        def recycle():
+            pids = [p["pid"] for p in b.k.procs]
+            if not pids:
+                return []
+            pid = rng.choice([q for q in pids if q in pid_step] or pids)
+            b.clock += rng.randrange(1, 5)
+            evs = [{"k": "exit", "pid": pid}, {"k": "spawn", "p": mk_proc(pid, b.clock)}]
+            for e in evs:
+                b.k.apply(e)
+            victims.append(pid)
+            return evs
+
+        def check_victim():
+            cands = [pid_step[v] for v in victims if v in pid_step]
+            if cands and rng.random() < 0.8:
+                b.is_running(rng.choice(cands))
+            else:
+                b.is_running()
+        if rng.random() < 0.6:
+            for e in recycle():
+                b.h.append({"op": "kev", "ev": e})
+        g = b.iter(b.attrs(rng.choice(["none", "none", "none", "plain", "pid", "ppid"])))
+        for _ in range(rng.randrange(0, len(b.k.procs) + 1)):
+            b.next(g)
+        for _ in range(rng.randrange(2, 7)):
+            r = rng.random()
+            if r < 0.30:
+                check_victim()
+            elif r < 0.50:
+                b.h.append({"op": "cache_clear"})
+            elif r < 0.65:
+                evs = recycle()
+                if rng.random() < 0.5:
+                    for e in evs:
+                        b.h.append({"op": "kev", "ev": e})
+                else:
+                    b.next(g, evs)
+            elif r < 0.85:
+                b.next(g)
+            elif r < 0.92:
+                b.h.append({"op": "pids"})
+            else:
+                b.kev(rng.choice(["spawn", "exit"]))
+        if rng.random() < 0.5:              # the product itself, in either order
+            two = [check_victim, lambda: b.h.append({"op": "cache_clear"})]
+            rng.shuffle(two)
+            for f in two:
+                f()
+        end = rng.random()
+        if end < 0.55:
+            b.drain(g)
+        elif end < 0.85:
+            b.h.append({"op": "close", "g": g})
+            if rng.random() < 0.3:
+                b.next(g)
+        for _ in range(3):
+            b.full(b.attrs(rng.choice(["none", "none", "plain"])))
+            if rng.random() < 0.2:
+                check_victim()
     elif family == "pid_exists":
         b.populate(rng.randrange(1, 5))
         for _ in range(rng.randrange(0, 3)):
@@ -1255,7 +1491,7 @@ def gen_history(rng, family):
 
 
 FAMILIES = ["static", "churn", "vanish_mid", "vanish_respawn", "reuse_flag", "clear", "attrs", "partial", "overlap",
-            "pid_exists", "mixed", "long", "pid_exists_platform", "attrs_all", "gone_same_tick"]
+            "pid_exists", "mixed", "long", "pid_exists_platform", "attrs_all", "gone_same_tick", "inflight_flag"]
 
 
 def corpus():
@@ -1285,7 +1521,12 @@ def corpus():
     gone = base + full(0) + [ev_exit(5), {"op": "is_running", "at": 5}, spawn(5, 105), {"op": "is_running", "at": 5},
                              {"op": "is_running", "at": 4}] + full(1) + \
         [{"op": "iter", "attrs": ["ppid"], "form": "pos"}] + [{"op": "next", "g": 2, "mid": []} for _ in range(4)] + full(3)
-    return [("corpus:gone-same-tick", gone), ("corpus:L19", l19), ("corpus:L4", l4), ("corpus:L5", l5), ("corpus:clear-suspended", clear),
+    # seeded round 5: PID 5 cached and recycled; a generator is in flight; is_running() finds 5 recycled; cache_clear(); the
+    # generator is exhausted (republishing its private table, stale entry included); three more iterations
+    inflight = base + full(0) + [ev_exit(5), spawn(5, 999), {"op": "iter", "attrs": None}, {"op": "next", "g": 1, "mid": []},
+                                 {"op": "is_running", "at": 5}, {"op": "cache_clear"}] + \
+        [{"op": "next", "g": 1, "mid": []} for _ in range(3)] + full(2) + full(3) + full(4)
+    return [("corpus:inflight-flag-clear", inflight), ("corpus:gone-same-tick", gone), ("corpus:L19", l19), ("corpus:L4", l4), ("corpus:L5", l5), ("corpus:clear-suspended", clear),
             ("corpus:ppid", ppid), ("corpus:vanish", vanish), ("corpus:thread", thread)]
 
 
@@ -1352,6 +1593,49 @@ def exhaustive_histories(maxlen):
         for word in itertools.product(alphabet, repeat=n):
             if "full" in word or "half" in word or "fullppid" in word or "vanish5name" in word:
                 yield list(word), expand(word)
+
+
+def exhaustive_inflight(maxlen):
+    """every word of length <= maxlen over {is_running on the old object of PID 5, cache_clear, advance the generator in
+    flight, close it, recycle PID 5 once more, a complete other iteration} placed in the WINDOW of a generator in flight —
+    table {1,5}, PID 5 cached; it is recycled before or after that generator started (one next() consumed) — followed by
+    the end of that generator and three complete iterations"""
+    alphabet = ["isrun", "clear", "adv", "close", "reuse5", "full"]
+
+    def full(g):
+        return [{"op": "iter", "attrs": None}] + [{"op": "next", "g": g, "mid": []} for _ in range(3)]
+    for n in range(1, maxlen + 1):
+        for word in itertools.product(alphabet, repeat=n):
+            for pre in (True, False):
+                h = [spawn(1, 101), spawn(5, 105)] + full(0)          # step 4 yields PID 5
+                start = 600
+                rec = [ev_exit(5), spawn(5, start)]
+                if pre:
+                    h += rec
+                h += [{"op": "iter", "attrs": None}, {"op": "next", "g": 1, "mid": []}]
+                if not pre:
+                    h += rec
+                ngen = 2
+                for w in word:
+                    if w == "isrun":
+                        h.append({"op": "is_running", "at": 4})
+                    elif w == "clear":
+                        h.append({"op": "cache_clear"})
+                    elif w == "adv":
+                        h.append({"op": "next", "g": 1, "mid": []})
+                    elif w == "close":
+                        h.append({"op": "close", "g": 1})
+                    elif w == "reuse5":
+                        start += 1
+                        h += [ev_exit(5), spawn(5, start)]
+                    else:
+                        h += full(ngen)
+                        ngen += 1
+                h += [{"op": "next", "g": 1, "mid": []} for _ in range(3)]
+                for _ in range(3):
+                    h += full(ngen)
+                    ngen += 1
+                yield list(word) + [pre], h
 
 
 def pid_exists_table():
@@ -1513,6 +1797,16 @@ def check_batch(ctx, impl, res, hists, tags, sample_idx=()):
                 res.count("in_region:" + fid)
             else:
                 res.disagree(kind, inp, io, mo, so, note=note)
+        rstats = {}
+        for step, note, fid in recycled_replaced_oracle(rows, ra, kids, rstats):
+            o, io, mo, so = rows[step]
+            if fid is not None:
+                res.known_seen[fid] = res.known_seen.get(fid, 0) + 1
+                res.count("in_region:" + fid)
+            else:
+                res.disagree("spec", {"history": h[:step + 1], "source": tag, "oracle": "recycled_replaced"}, io, mo, so, note=note)
+        for kk, vv in rstats.items():
+            res.count("recycled_replaced:" + kk, vv)
         res.count("whole_iteration_judged", sum(1 for r in rows if r[0]["op"] == "iter"))
         for step, note in whole_iteration_oracle(rows, ra, valid_names(impl)):
             o, io, mo, so = rows[step]
@@ -1661,7 +1955,7 @@ def correspond(ctx, res):
     impl = Impl(ctx)
     try:
         res.rule = ("histories of kernel events and pids/pid_exists/process_iter/next/close/cache_clear/"
-                    "is_running ops from 15 clause-directed families (PRNG from VERIF_SEED; process_iter called in every spelling of its signature), the lead witnesses, "
+                    "is_running ops from 16 clause-directed families (PRNG from VERIF_SEED; process_iter called in every spelling of its signature), the lead witnesses, "
                     "an exhaustive sweep of short macro-step words around one recycled PID, the complete "
                     "pid_exists table (every kind of id × every boundary argument) and byte-level directory "
                     "listings; non-trivial = an object is yielded again / a PID gets a new object / generators "
@@ -1693,6 +1987,11 @@ def correspond(ctx, res):
         for word, h in exhaustive_histories(maxlen):
             hists.append(h)
             tags.append("exhaustive")
+        n_inflight = 0
+        for word, h in exhaustive_inflight(maxlen):
+            hists.append(h)
+            tags.append("exhaustive_inflight")
+            n_inflight += 1
         total_lines = 0
         CH = 1500
         for a in range(0, len(hists), CH):
@@ -1701,7 +2000,10 @@ def correspond(ctx, res):
         res.exhaustive = ("all %d words of length <= %d over the macro alphabet {reuse PID 5, exit 5, full iteration, "
                           "spawn 5, full iteration with attrs=['ppid'], iteration with attrs=['name'] during which 5 exits, start+1 next, resume 2 nexts, cache_clear, "
                           "is_running on the last object yielded for PID 5} containing an iteration; the complete "
-                          "pid_exists table; the random families are samples" % (len(hists) - n_rand, maxlen))
+                          "pid_exists table; all %d words of length <= %d over {is_running on the stale object, cache_clear, advance / close the "
+                          "generator in flight, recycle PID 5 again, a complete other iteration} in the window of a generator in flight "
+                          "(PID 5 recycled before / after it started), each followed by the end of that generator and three complete "
+                          "iterations; the random families are samples" % (len(hists) - n_rand - n_inflight, maxlen, n_inflight, maxlen))
         total_lines += listing_cases(ctx, impl, res)
         total_lines += attrs_all_cases(ctx, impl, res)
         res.extra["driver_lines"] = total_lines
@@ -1782,6 +2084,9 @@ def _first_spec_failure(ctx, impl, hist):
             return step, results[0][step]
     for step, note in whole_iteration_oracle(results[0], REGION_REUSE_ATTRS, valid_names(impl)):
         return step, results[0][step]
+    for step, note, fid in recycled_replaced_oracle(results[0], REGION_REUSE_ATTRS, known_ids(ctx)):
+        if fid is None:
+            return step, results[0][step]
     return None
 
 
